@@ -94,7 +94,7 @@ func main() {
 	}
 	// the runtime is always injected so that harnesses may import it
 	for _, p := range []string{"vrt", "vsync", "vatomic"} {
-		files, _ := filepath.Glob(filepath.Join(vdir, "h", "shim", p, "*.go"))
+		files, _ := filepath.Glob(filepath.Join(vdir, "h", "shim", p, "*.*"))
 		for _, f := range files {
 			repl[filepath.Join(repo, "pkg", "verifrt", p, filepath.Base(f))] = f
 		}
